@@ -549,8 +549,8 @@ def _tendon_params(r, cfg, t):
       t["damping"] = r.u(0, 1)
       if cfg.get("poly") and r.p(0.4):
         t["dampingpoly"] = [r.u(0, 0.5), r.u(0, 0.2)]
-    if r.p(0.3) and not any(it[0] == "geom" for it in t.get("path", [])):
-      t["armature"] = r.u(0, 0.1)
+    if r.p(cfg.get("armature_p", 0.3)) and not any(it[0] == "geom" for it in t.get("path", [])):
+      t["armature"] = r.u(0, cfg.get("armature_max", 0.1))
     if r.p(0.3):
       a = r.u(0.0, 0.5)
       t["springlength"] = [a, r6(a + r.u(0, 0.5))]
